@@ -5,7 +5,7 @@
    [hadamard_psd] (Schur product theorem).  The harness tests the smallest eigenvalue of sampled Gram
    matrices as support only. *)
 From Coq Require Import Reals List ZArith Lra Lia.
-From MellonV Require Import ALists AKernels AKExpr AListsFacts ADistThm.
+From MellonV Require Import ALists AKernels AKExpr AListsFacts ADistThm AKernelsThm.
 Import ListNotations.
 Open Scope R_scope.
 
@@ -90,7 +90,13 @@ Fixpoint psd_shape (e : kexpr) : Prop :=
 Section Closure.
 (* NAMED HYPOTHESES, not proved (see the header) *)
 Hypothesis kernel_psd : forall b ls, base_ok b ls -> psd (base_k b ls).
-Hypothesis hadamard_psd : forall k1 k2, psd k1 -> psd k2 -> psd (fun x y => k1 x y * k2 x y).
+(* Schur product theorem.  It is stated for SYMMETRIC kernels: without symmetry the statement is false
+   (k x y = x_0 - y_0 has the zero quadratic form, its square does not), and an unsatisfiable hypothesis
+   would make the closure theorem vacuous.  lib/MxSchurProd.v proves the theorem for matrices over any
+   real closed field (schur_product); the transfer to this list-over-R presentation is thm/ASchurBridge.v
+   when present, otherwise it stays a named hypothesis. *)
+Definition ksym (k : list R -> list R -> R) : Prop := forall x y, k x y = k y x.
+Hypothesis hadamard_psd : forall k1 k2, ksym k1 -> ksym k2 -> psd k1 -> psd k2 -> psd (fun x y => k1 x y * k2 x y).
 
 Theorem keval_psd_partial e : psd_shape e -> psd (keval e).
 Proof.
@@ -99,7 +105,8 @@ Proof.
   - destruct Hs as [H1 H2]. apply (psd_sel (fun x y => keval e1 x y + keval e2 x y) ad). apply psd_add; auto.
   - destruct Hs as [H1 H2]. apply (psd_sel (fun x y => keval e x y + c) ad).
     apply (psd_add (keval e) (fun _ _ => c)); [auto|now apply psd_const].
-  - destruct Hs as [H1 H2]. apply (psd_sel (fun x y => keval e1 x y * keval e2 x y) ad). apply hadamard_psd; auto.
+  - destruct Hs as [H1 H2]. apply (psd_sel (fun x y => keval e1 x y * keval e2 x y) ad).
+    apply hadamard_psd; auto; intros x y; apply keval_symmetric.
   - destruct Hs as [H1 H2]. apply (psd_sel (fun x y => keval e x y * c) ad). apply psd_scale; auto.
   - contradiction.
 Qed.
